@@ -858,12 +858,12 @@ func main() {
 	sb.WriteString("/-- Panic-capable sites of pkg/cast. -/\ndef castSites : List (String × String × Nat) := " + renderSites(panicSites(cp)) + "\n\n")
 	jw, jg := sharedWrites(jp)
 	cwr, cg := sharedWrites(cp)
-	sb.WriteString("/-- Assignments through a receiver, a parameter or a package-level variable in pkg/jsonline. -/\ndef jsonlineWrites : List String := " + lstrList(jw) + "\n\n")
+	sb.WriteString("/-- Assignments through a receiver, a parameter or a package-level variable in pkg/jsonline. -/\ndef jsonlineWrites : List (String × String) := " + lstrList(jw) + "\n\n")
 	sb.WriteString("def jsonlineGlobals : List String := " + lstrList(jg) + "\n\n")
-	sb.WriteString("def castWrites : List String := " + lstrList(cwr) + "\n\n")
+	sb.WriteString("def castWrites : List (String × String) := " + lstrList(cwr) + "\n\n")
 	sb.WriteString("def castGlobals : List String := " + lstrList(cg) + "\n\n")
-	sb.WriteString("/-- Every call that receives the template's prototype row `t.empty`, per template method. -/\ndef protoUses : List String := " + lstrList(rootedCalls(jp, "template.*", "t.empty")) + "\n\n")
-	sb.WriteString("/-- What CloneRow / CloneValue do with their argument. -/\ndef cloneUses : List String := " + lstrList(append(append(rootedCalls(jp, "CloneRow", "r"), rootedCalls(jp, "CloneValue", "v")...), rootedCalls(jp, "row.IterValues", "r.l")...)) + "\n\n")
+	sb.WriteString("/-- Every call that receives the template's prototype row `t.empty`, per template method. -/\ndef protoUses : List (String × String) := " + lstrList(rootedCalls(jp, "template.*", "t.empty")) + "\n\n")
+	sb.WriteString("/-- What CloneRow / CloneValue do with their argument. -/\ndef cloneUses : List (String × String) := " + lstrList(append(append(rootedCalls(jp, "CloneRow", "r"), rootedCalls(jp, "CloneValue", "v")...), rootedCalls(jp, "row.IterValues", "r.l")...)) + "\n\n")
 	// constants of importer.go / exporter.go
 	for _, c := range []string{"initialBufferSize", "maximumBufferSize", "lineSeparator"} {
 		if obj, ok := jp.pkg.Scope().Lookup(c).(*types.Const); ok {
